@@ -653,7 +653,7 @@ class PolarsModel(data_algebra.data_model.DataModel):
         assert len(frame_list) > 0
         if len(frame_list) == 1:
             return frame_list[0]
-        pl.concat(frame_list, how="vertical")
+        return pl.concat(frame_list, how="vertical")
 
     def concat_columns(self, frame_list):
         """
